@@ -41,11 +41,14 @@ func writeReplay(eng *Engine, dir, pid, name string, st *oblStatus, fr *FuncResu
 				}
 			}
 			for _, v := range st.FailInst.Fields {
-				if val, ok := st.FailRes.Model[v.Term]; ok {
+				if val, ok := st.FailRes.Model[v.Term]; ok && v.Term != "" {
 					rf.Inputs[v.Path] = val
 				}
 			}
 		}
+	}
+	if st.FailRes != nil && st.FailRes.Candidate {
+		rf.Replay["model"] = "candidate: the solver did not decide the obligation; this model satisfies the path condition without its quantified assumptions and counts only if the replay confirms it"
 	}
 	status := "not-attempted"
 	if len(rf.Inputs) > 0 && st.FailInst != nil {
